@@ -431,7 +431,10 @@ PROPS = {
     "C15": {
         "level": "proof",
         "level_prefix": "Partial proof -- contracts discharged without bound on the mechanisms named below, not the whole statement (bounded stand-ins and what is left out are listed): ",
-        "units": ["queries", "sections"],
+        "units": ["queries", "sections", "streamcfg"],
+        "replays": [
+            {"bin": "d53_stream_response_timeout", "crate": "replay_net", "finding": "D53"},
+        ],
         "kani": [
             {"group": "repo_client", "name": "c15_queries_match_model_bounded", "kind": "bounded", "tier": "quick", "timeout": 600,
              "bound": "every sequence of 4 operations (insert / try_remove of any index / try_remove + insert_at) on an empty table, all values",
@@ -454,7 +457,12 @@ PROPS = {
                        "message (unit sections, real text of base/message.rs): Message::is_answer says yes only for a response (QR set) that "
                        "carries the query's ID and the query's question count, and QuestionSection's == (the loop over both question sections) "
                        "terminates for any two messages and says equal only if both sections parse completely and have the same length -- so a "
-                       "reply with another ID, a query echoed back, or a reply with a missing or extra question is never handed to the caller as its answer.",
+                       "reply with another ID, a query echoed back, or a reply with a missing or extra question is never handed to the caller as its answer. "
+                       "RequestMessage::is_answer (net/client/request.rs, the function the datagram and stream transports call): yes only for a response with "
+                       "the request's ID that either repeats the request's question section or is a header-only reply with an error RCODE -- a bare NOERROR "
+                       "header is refused. The configured timeout (unit streamcfg, real text of stream::Config and utils::config::DefMinMax): after "
+                       "set_response_timeout(t) the timeout in effect, the one installed for single-response requests and the streaming one are all t trimmed "
+                       "to 1 ms..600 s (this contract exposed D53).",
         "not_covered": "Everything else about delivery: question-by-question equality inside is_answer rests on Question's == (names: C04), the header-only error reply rule of the transports, exactly-once completion, "
                        "timeouts, retries, reordering/duplication/loss, truncation fallback, the datagram/redundant/load-balancing "
                        "transports (async tasks over tokio; schedules are outside contract-based verification).",
